@@ -335,6 +335,52 @@ func (e *e3) verify(x e3exec, k int64, torn bool) *Violation {
 			if cas <= max {
 				return &Violation{Tags: []string{"C10", "C04"}, Oracle: "crash.highwater", Msg: fmt.Sprintf("%s: the first write after reopening got CAS %d, not above the surviving documents' highest CAS %d", where, cas, max), Step: x.inflight}
 			}
+			// pending expirations survive: close, stay down until every deadline has passed, reopen,
+			// and shortly afterwards everything that had an expiry must be gone
+			var latest uint32
+			type ck struct {
+				c int
+				k string
+			}
+			var due []ck
+			for c, m := range cand.docs {
+				for _, k := range keysOf(m, "") {
+					if d := m[k]; d.HasBody && d.Exp != 0 && !d.ExpAny {
+						due = append(due, ck{c, k})
+						if d.Exp > latest {
+							latest = d.Exp
+						}
+					}
+				}
+			}
+			if len(due) > 0 && (e.p.Seed+uint64(k))%4 == 0 { // (a quarter of the crash points: it costs a reopen)
+				b.Close(context.Background())
+				synctest.Wait()
+				rosmar.VerifResetProcess()
+				if now := nowUnix(); latest+3 > now {
+					time.Sleep(time.Duration(latest+3-now) * time.Second)
+				}
+				b2, err := rosmar.OpenBucket("rosmar://"+filepath.Join(dst, "b"), "b1", rosmar.ReOpenExisting)
+				if err != nil {
+					return &Violation{Tags: []string{"C10"}, Oracle: "crash.reopen2", Msg: fmt.Sprintf("%s: the bucket cannot be reopened a second time: %v", where, err), Step: x.inflight}
+				}
+				b = b2 // (deleted by the deferred cleanup)
+				time.Sleep(8 * time.Second)
+				synctest.Wait()
+				for _, d := range due {
+					var ds sgbucket.DataStore = b2.DefaultDataStore()
+					if d.c > 0 {
+						ds, _ = b2.NamedDataStore(collNames[d.c])
+					}
+					if ds == nil {
+						continue
+					}
+					if body, _, err := ds.GetRaw(d.k); err == nil {
+						return &Violation{Tags: []string{"C10", "C14"}, Oracle: "crash.pending-expiry", Msg: fmt.Sprintf("%s: %q had expiry %d, the bucket was reopened after that time, and 8 s later the document is still readable (%q): the pending expiration did not survive the restart", where, d.k, cand.docs[d.c][d.k].Exp, body), Step: x.inflight}
+					}
+				}
+				e.probe("crash.pending-expiry-checked")
+			}
 			return nil
 		}
 		whys = append(whys, why)
